@@ -21,6 +21,7 @@ Renaming of locals is handled at comparison time (shared_py._canon / piece_regex
 """
 import ast
 import copy
+import os
 
 TERMINATORS = (ast.Return, ast.Raise, ast.Continue, ast.Break)
 NEG = {ast.Lt: ast.GtE, ast.LtE: ast.Gt, ast.Gt: ast.LtE, ast.GtE: ast.Lt, ast.Eq: ast.NotEq, ast.NotEq: ast.Eq,
@@ -74,10 +75,24 @@ def negate(e):
 
 
 def norm_compare(e):
-    """single comparison: `b > a` -> `a < b`"""
+    """single comparison: `b > a` -> `a < b`; the operands of == and != in a fixed order"""
     if len(e.ops) == 1 and type(e.ops[0]) in SWAP:
         return loc(ast.Compare(left=e.comparators[0], ops=[SWAP[type(e.ops[0])]()], comparators=[e.left]), e)
+    if len(e.ops) == 1 and isinstance(e.ops[0], (ast.Eq, ast.NotEq)):
+        a, b = e.left, e.comparators[0]
+        ka, kb = (isinstance(a, ast.Constant), ast.unparse(a)), (isinstance(b, ast.Constant), ast.unparse(b))
+        if kb < ka:
+            return loc(ast.Compare(left=b, ops=[e.ops[0]], comparators=[a]), e)
     return e
+
+
+def neg_score(e):
+    """(negations, weak comparisons): `not a or c <= b` scores higher than its dual `a and b < c`."""
+    nots = sum(1 for n in ast.walk(e) if (isinstance(n, ast.UnaryOp) and isinstance(n.op, ast.Not)) or
+               (isinstance(n, ast.Compare) and any(isinstance(o, NEGATIVE_OPS) for o in n.ops)))
+    weak = sum(1 for n in ast.walk(e) if isinstance(n, ast.Compare) and any(isinstance(o, (ast.LtE, ast.GtE)) for o in n.ops))
+    ors = sum(1 for n in ast.walk(e) if isinstance(n, ast.BoolOp) and isinstance(n.op, ast.Or))
+    return (nots, weak, ors)
 
 
 def is_negative(e):
@@ -99,8 +114,11 @@ class Normaliser(ast.NodeTransformer):
         return norm_compare(node)
 
     def visit_UnaryOp(self, node):
+        if isinstance(node.op, ast.Not):
+            node.operand = self._unbool(node.operand)
         self.generic_visit(node)
         if isinstance(node.op, ast.Not):
+            node.operand = self._unbool(node.operand)
             inner = node.operand
             if isinstance(inner, (ast.Compare, ast.BoolOp)) or (isinstance(inner, ast.UnaryOp) and isinstance(inner.op, ast.Not)
                                                                  and self._boolean_operand(inner.operand)):
@@ -115,6 +133,8 @@ class Normaliser(ast.NodeTransformer):
 
     def visit_BoolOp(self, node):
         self.generic_visit(node)
+        if not self._value_used(node):
+            pass
         # flatten nested same-operator chains: (a and b) and c
         vals = []
         for v in node.values:
@@ -123,10 +143,36 @@ class Normaliser(ast.NodeTransformer):
             else:
                 vals.append(v)
         node.values = vals
+        # N11: `A and B or C` is `B if A else C` whenever a falsy B gives the same result: C is the falsy value of B's kind
+        # (`x and n or 0`, `s and t or ''`) or B cannot be falsy (a non-empty literal, str(...) of a number)
+        if isinstance(node.op, ast.Or) and len(node.values) == 2 and isinstance(node.values[0], ast.BoolOp) \
+                and isinstance(node.values[0].op, ast.And) and len(node.values[0].values) >= 2:
+            conds, b, c = node.values[0].values[:-1], node.values[0].values[-1], node.values[1]
+            falsy_c = isinstance(c, ast.Constant) and c.value in (0, '', b'') and not isinstance(c.value, bool)
+            truthy_b = (isinstance(b, ast.Constant) and bool(b.value)) or \
+                (isinstance(b, ast.Call) and isinstance(b.func, ast.Name) and b.func.id == 'str' and len(b.args) == 1) or \
+                (isinstance(b, ast.Call) and isinstance(b.func, ast.Attribute) and b.func.attr == 'join' and isinstance(b.func.value, ast.Name)
+                 and len(b.args) == 1 and isinstance(b.args[0], ast.Tuple) and len(b.args[0].elts) >= 1
+                 and any(isinstance(x, ast.Constant) and x.value for x in b.args[0].elts))
+            if falsy_c or truthy_b:
+                test = conds[0] if len(conds) == 1 else loc(ast.BoolOp(op=ast.And(), values=conds), node)
+                return loc(ast.IfExp(test=test, body=b, orelse=c), node)
         return node
+
+    CONSUMERS = ('any', 'all', 'sum', 'max', 'min', 'sorted', 'tuple', 'set', 'frozenset', 'list', 'dict')
 
     def visit_Call(self, node):
         self.generic_visit(node)
+        # N16: a list comprehension that is only consumed is the generator expression
+        if len(node.args) == 1 and not node.keywords and isinstance(node.args[0], ast.ListComp) and (
+                (isinstance(node.func, ast.Name) and node.func.id in self.CONSUMERS) or
+                (isinstance(node.func, ast.Attribute) and node.func.attr == 'join')):
+            lc = node.args[0]
+            node.args[0] = loc(ast.GeneratorExp(elt=lc.elt, generators=lc.generators), lc)
+        # `list(sorted(x))` is `sorted(x)`
+        if isinstance(node.func, ast.Name) and node.func.id == 'list' and len(node.args) == 1 and not node.keywords \
+                and isinstance(node.args[0], ast.Call) and isinstance(node.args[0].func, ast.Name) and node.args[0].func.id == 'sorted':
+            return node.args[0]
         if isinstance(node.func, ast.Name) and not node.args and not node.keywords:
             if node.func.id == 'list':
                 return loc(ast.List(elts=[], ctx=ast.Load()), node)
@@ -143,6 +189,43 @@ class Normaliser(ast.NodeTransformer):
         return node
 
     # ---------------------------------------------------------------- statements
+    def visit_AugAssign(self, node):
+        self.generic_visit(node)
+        # N17: `xs += [e]` is `xs.append(e)`
+        if isinstance(node.op, ast.Add) and isinstance(node.target, ast.Name) and isinstance(node.value, ast.List) and len(node.value.elts) == 1 \
+                and not isinstance(node.value.elts[0], ast.Starred):
+            call = ast.Call(func=ast.Attribute(value=ast.Name(id=node.target.id, ctx=ast.Load()), attr='append', ctx=ast.Load()),
+                            args=[node.value.elts[0]], keywords=[])
+            return loc(ast.Expr(value=loc(call, node)), node)
+        return node
+
+    @staticmethod
+    def _value_used(node):
+        return True
+
+    @staticmethod
+    def _unbool(e):
+        """N18: bool(x) in a boolean position is x"""
+        while isinstance(e, ast.Call) and isinstance(e.func, ast.Name) and e.func.id == 'bool' and len(e.args) == 1 and not e.keywords:
+            e = e.args[0]
+        return e
+
+    def visit_If(self, node):
+        node.test = self._unbool(node.test)
+        self.generic_visit(node)
+        node.test = self._unbool(node.test)
+        return node
+
+    def visit_While(self, node):
+        node.test = self._unbool(node.test)
+        self.generic_visit(node)
+        return node
+
+    def visit_IfExp(self, node):
+        node.test = self._unbool(node.test)
+        self.generic_visit(node)
+        return node
+
     def visit_Assign(self, node):
         self.generic_visit(node)
         if len(node.targets) == 1 and isinstance(node.value, ast.BinOp) and isinstance(node.targets[0], (ast.Name, ast.Attribute, ast.Subscript)) \
@@ -151,17 +234,22 @@ class Normaliser(ast.NodeTransformer):
             return loc(ast.AugAssign(target=tgt, op=node.value.op, value=node.value.right), node)
         return node
 
-    def _block(self, stmts):
-        """Normalises a statement list (children first), then the If shapes that depend on what follows."""
+    def _block(self, stmts, exit_stmt=None):
+        """Normalises a statement list (children first), then the If shapes that depend on what follows. `exit_stmt` is what
+        falling off the end of this block means (`return` for a function body, `continue` for a loop body)."""
         out = []
         for s in stmts:
             r = self.visit(s)
             if r is None:
                 continue
             out.extend(r if isinstance(r, list) else [r])
-        return self._ifs(out)
+        out = self._ifs(out, exit_stmt)
+        # an explicit exit at the very end of the block says nothing
+        while exit_stmt is not None and len(out) > 1 and type(out[-1]) is type(exit_stmt) and getattr(out[-1], 'value', None) is None:
+            out = out[:-1]
+        return out
 
-    def _ifs(self, stmts):
+    def _ifs(self, stmts, exit_stmt=None):
         out = []
         i = 0
         while i < len(stmts):
@@ -169,6 +257,14 @@ class Normaliser(ast.NodeTransformer):
             if isinstance(s, ast.If):
                 rest = stmts[i + 1:]
                 body, orelse, test = s.body, s.orelse, s.test
+                if exit_stmt is not None and not orelse and len(body) == 1 and type(body[0]) is type(exit_stmt) \
+                        and getattr(body[0], 'value', None) is None and rest and not _defines(rest):
+                    # N13: the guard `if c: <leave>` followed by R (to the end of a block whose end means <leave>) is `if not c: R`
+                    inner = self._ifs(list(rest), exit_stmt)
+                    while len(inner) > 1 and type(inner[-1]) is type(exit_stmt) and getattr(inner[-1], 'value', None) is None:
+                        inner = inner[:-1]
+                    out.append(loc(ast.If(test=negate(test), body=inner, orelse=[]), s))
+                    return out
                 # an else after a body that leaves the block is the rest of the block
                 if orelse and terminates(body):
                     rest = orelse + rest
@@ -179,21 +275,30 @@ class Normaliser(ast.NodeTransformer):
                     # both continuations leave the block: the smaller one is the guarded early exit
                     if (exit_rank(rest), size(rest)) < (exit_rank(body), size(body)):
                         test, body, rest = negate(test), rest, body
-                if orelse and is_negative(test):
-                    test, body, orelse = negate(test), orelse, body
+                if orelse and neg_score(negate(copy.deepcopy(test))) < neg_score(test):
+                    test, body, orelse = negate(test), orelse, body     # the orientation with fewer negations / weak comparisons
                 s = loc(ast.If(test=test, body=body, orelse=orelse), s)
                 out.append(s)
-                out.extend(self._ifs(rest))
+                out.extend(self._ifs(rest, exit_stmt))
                 return out
             out.append(s)
             i += 1
         return out
 
+    def _retail(self, s, exit_stmt):
+        s.body = self._ifs(list(s.body[:-1]), None) + [s.body[-1]] if s.body else s.body
+        return s
+
     def generic_visit(self, node):
         for field in ('body', 'orelse', 'finalbody'):
             blk = getattr(node, field, None)
             if isinstance(blk, list) and blk and isinstance(blk[0], ast.stmt):
-                setattr(node, field, self._block(blk))
+                exit_stmt = None
+                if field == 'body' and isinstance(node, (ast.FunctionDef, ast.AsyncFunctionDef)) and not _is_generator(node):
+                    exit_stmt = ast.Return(value=None)
+                elif field == 'body' and isinstance(node, (ast.For, ast.While)):
+                    exit_stmt = ast.Continue()
+                setattr(node, field, self._block(blk, exit_stmt) or [loc(ast.Pass(), node)])
         for field, old in ast.iter_fields(node):
             if field in ('body', 'orelse', 'finalbody') and isinstance(old, list) and old and isinstance(old[0], ast.stmt):
                 continue
@@ -229,6 +334,13 @@ class Normaliser(ast.NodeTransformer):
         return node
 
 
+def _is_generator(fn):
+    for n in _own_nodes(fn):
+        if isinstance(n, (ast.Yield, ast.YieldFrom)):
+            return True
+    return False
+
+
 def _defines(stmts):
     return any(isinstance(n, (ast.FunctionDef, ast.ClassDef, ast.Lambda)) for s in stmts for n in ast.walk(s))
 
@@ -237,6 +349,10 @@ def normalise(tree):
     """In-place normal form of a module / statement tree."""
     tree = Normaliser().visit(tree)
     ast.fix_missing_locations(tree)
+    if not os.environ.get('SA_NO_COPYPROP'):
+        propagate_all(tree)
+        tree = Normaliser().visit(tree)          # substitution can create shapes the first pass removes (`not (a < b)`)
+        ast.fix_missing_locations(tree)
     return tree
 
 
@@ -248,9 +364,456 @@ def normal_text(src):
             tree = ast.parse(cand)
         except SyntaxError:
             continue
-        tree = normalise(tree)
-        out = ast.unparse(tree)
+        if tree.body and all(isinstance(x, ast.stmt) for x in tree.body) and not any(isinstance(x, (ast.FunctionDef, ast.ClassDef)) for x in tree.body):
+            # statements of a function body: locals are propagated like in the analysed functions
+            fn = ast.FunctionDef(name='_fragment', args=ast.arguments(posonlyargs=[], args=[], vararg=None, kwonlyargs=[], kw_defaults=[],
+                                                                     kwarg=None, defaults=[]), body=tree.body, decorator_list=[], returns=None,
+                                 type_comment=None, lineno=0, col_offset=0)
+            mod = ast.Module(body=[fn], type_ignores=[])
+            ast.fix_missing_locations(mod)
+            mod = normalise(mod)
+            out = '\n'.join(ast.unparse(x) for x in mod.body[0].body)
+        else:
+            tree = normalise(tree)
+            out = ast.unparse(tree)
         if cand is not src and out.rstrip().endswith('pass'):
             out = out.rstrip()[:-4]
         return out
     return None
+
+
+# ------------------------------------------------------------------------------------------------ N10 copy propagation
+PURE_CALLS = ('len', 'max', 'min', 'abs', 'isinstance', 'issubclass', 'bool', 'int', 'sum', 'any', 'all', 'type', 'getattr',
+              'hasattr', 'tuple', 'frozenset', 'str', 'repr', 'divmod', 'range', 'xrange', 'enumerate', 'zip', 'reversed')
+PURE_METHODS = ('get', 'format', 'join', 'split', 'ljust', 'rjust', 'strip', 'lstrip', 'rstrip', 'startswith', 'endswith', 'lower',
+                'upper', 'keys', 'values', 'items', 'index', 'count', 'rfind', 'find', 'replace', 'splitlines', 'isdigit')
+MUTATORS = ('append', 'extend', 'insert', 'pop', 'remove', 'clear', 'update', 'add', 'discard', 'sort', 'reverse', 'setdefault',
+            'popitem', '__setitem__', '__delitem__')
+SCOPES = (ast.FunctionDef, ast.AsyncFunctionDef, ast.Lambda, ast.ClassDef)
+
+
+def is_pure(e):
+    """Evaluating the expression has no effect and yields a value (not a fresh mutable object that the name would stand for)."""
+    if isinstance(e, (ast.List, ast.Dict, ast.Set, ast.ListComp, ast.SetComp, ast.DictComp, ast.GeneratorExp)):
+        return False
+    for n in ast.walk(e):
+        if isinstance(n, ast.Call):
+            if isinstance(n.func, ast.Name):
+                if n.func.id not in PURE_CALLS:
+                    return False
+            elif isinstance(n.func, ast.Attribute):
+                fn = ast.unparse(n.func)
+                if not (n.func.attr in PURE_METHODS or fn.startswith('os.path.')):
+                    return False
+            else:
+                return False
+        elif isinstance(n, (ast.Yield, ast.YieldFrom, ast.Await, ast.NamedExpr, ast.Lambda, ast.Starred)):
+            return False
+    return True
+
+
+def _own_nodes(fn):
+    """Nodes of the function body that belong to its own scope (nested function / class / lambda bodies excluded, their
+    headers included)."""
+    out = []
+    stack = list(fn.body) if not isinstance(fn, ast.Lambda) else [fn.body]
+    while stack:
+        n = stack.pop()
+        out.append(n)
+        if isinstance(n, SCOPES):
+            continue
+        stack.extend(ast.iter_child_nodes(n))
+    return out
+
+
+def _bindings(fn):
+    """{name: number of binding occurrences in the function's own scope}; names read in nested scopes; global/nonlocal names."""
+    own = _own_nodes(fn)
+    cnt = {}
+    for n in own:
+        if isinstance(n, ast.Name) and isinstance(n.ctx, (ast.Store, ast.Del)):
+            cnt[n.id] = cnt.get(n.id, 0) + 1
+        elif isinstance(n, ast.AugAssign) and isinstance(n.target, ast.Name):
+            cnt[n.target.id] = cnt.get(n.target.id, 0) + 1
+        elif isinstance(n, ast.ExceptHandler) and n.name:
+            cnt[n.name] = cnt.get(n.name, 0) + 1
+        elif isinstance(n, (ast.FunctionDef, ast.AsyncFunctionDef, ast.ClassDef)):
+            cnt[n.name] = cnt.get(n.name, 0) + 1
+        elif isinstance(n, (ast.Import, ast.ImportFrom)):
+            for a in n.names:
+                nm = (a.asname or a.name).split('.')[0]
+                cnt[nm] = cnt.get(nm, 0) + 1
+    nested_reads = set()
+    declared = set()
+    for n in own:
+        if isinstance(n, SCOPES):
+            for x in ast.walk(n):
+                if isinstance(x, ast.Name):
+                    nested_reads.add(x.id)
+        elif isinstance(n, (ast.Global, ast.Nonlocal)):
+            declared.update(n.names)
+    return cnt, nested_reads, declared
+
+
+def _blocks(fn):
+    """[(statement list, owner node)] of the function's own scope."""
+    out = []
+    stack = [fn]
+    while stack:
+        n = stack.pop()
+        for field in ('body', 'orelse', 'finalbody'):
+            blk = getattr(n, field, None)
+            if isinstance(blk, list) and blk and isinstance(blk[0], ast.stmt):
+                out.append((blk, n))
+                for s in blk:
+                    if not isinstance(s, SCOPES):
+                        stack.append(s)
+        for h in getattr(n, 'handlers', []) or []:
+            stack.append(h)
+    return out
+
+
+def propagate_copies(fn):
+    """N10: a local with exactly one binding `x = <pure expression>` whose operands are not re-bound, whose attribute /
+    subscript reads are not written between the definition and the last use, and all of whose uses follow the definition in
+    the same block (or in statements nested in later siblings) is replaced by its definition; the assignment disappears.
+    Hoisting a sub-expression into a named local and inlining one therefore give the same normal form."""
+    params = set(a.arg for a in fn.args.posonlyargs + fn.args.args + fn.args.kwonlyargs)
+    if fn.args.vararg:
+        params.add(fn.args.vararg.arg)
+    if fn.args.kwarg:
+        params.add(fn.args.kwarg.arg)
+    for _ in range(200):
+        cnt, nested_reads, declared = _bindings(fn)
+        done = False
+        for blk, owner in _blocks(fn):
+            for i, st in enumerate(blk):
+                if not (isinstance(st, ast.Assign) and len(st.targets) == 1 and isinstance(st.targets[0], ast.Name)):
+                    continue
+                x = st.targets[0].id
+                if cnt.get(x) != 1 or x in params or x in nested_reads or x in declared or x == '_':
+                    continue
+                e = st.value
+                if not is_pure(e):
+                    continue
+                in_loop = _enclosing_loop_targets(fn, blk)
+                ok = True
+                for n in ast.walk(e):
+                    if isinstance(n, ast.Name) and n.id != x:
+                        c = cnt.get(n.id, 0)
+                        if c == 0 or (c == 1 and n.id in in_loop):
+                            continue
+                        if c == 1 and _defined_before(fn, n.id, blk, i):
+                            continue
+                        ok = False
+                        break
+                if not ok:
+                    continue
+                later = blk[i + 1:]
+                uses = [n for s in later for n in ast.walk(s) if isinstance(n, ast.Name) and n.id == x and isinstance(n.ctx, ast.Load)]
+                all_uses = [n for n in _own_nodes(fn) if isinstance(n, ast.Name) and n.id == x and isinstance(n.ctx, ast.Load)]
+                if not uses or len(uses) != len(all_uses):
+                    continue
+                if _reads_written_state(e, later, uses, owner):
+                    continue
+                for s in later:
+                    _Subst(x, e).visit(s)
+                del blk[i]
+                if not blk:
+                    blk.append(ast.copy_location(ast.Pass(), st))
+                done = True
+                break
+            if done:
+                break
+        if not done:
+            break
+
+
+class _Subst(ast.NodeTransformer):
+    def __init__(self, name, expr):
+        self.name, self.expr = name, expr
+
+    def visit_Name(self, n):
+        if n.id == self.name and isinstance(n.ctx, ast.Load):
+            return ast.copy_location(copy.deepcopy(self.expr), n)
+        return n
+
+
+def _enclosing_loop_targets(fn, blk):
+    """Names bound as loop variables by for-loops whose body (transitively) contains the block."""
+    out = set()
+
+    def rec(node, acc):
+        for field in ('body', 'orelse', 'finalbody'):
+            b = getattr(node, field, None)
+            if isinstance(b, list):
+                acc2 = set(acc)
+                if isinstance(node, ast.For) and field == 'body':
+                    acc2 |= set(t.id for t in ast.walk(node.target) if isinstance(t, ast.Name))
+                if b is blk:
+                    out.update(acc2)
+                    return True
+                for s in b:
+                    if isinstance(s, ast.stmt) and not isinstance(s, SCOPES) and rec(s, acc2):
+                        return True
+        for h in getattr(node, 'handlers', []) or []:
+            if rec(h, acc):
+                return True
+        return False
+    rec(fn, set())
+    return out
+
+
+def _defined_before(fn, name, blk, idx):
+    """The single binding of `name` is a statement that precedes position idx of blk or of an enclosing block."""
+    for s in blk[:idx]:
+        for n in ast.walk(s):
+            if isinstance(n, ast.Name) and n.id == name and isinstance(n.ctx, ast.Store):
+                return True
+    # enclosing blocks: find the statement of the parent block that contains blk
+    for pblk, owner in _blocks(fn):
+        for j, s in enumerate(pblk):
+            if any(getattr(s, f, None) is blk for f in ('body', 'orelse', 'finalbody')) or \
+                    any(h.body is blk for h in getattr(s, 'handlers', []) or []):
+                if isinstance(s, ast.For) and s.body is blk and any(isinstance(t, ast.Name) and t.id == name for t in ast.walk(s.target)):
+                    return True
+                if isinstance(s, ast.With) and any(it.optional_vars is not None and name in [t.id for t in ast.walk(it.optional_vars) if isinstance(t, ast.Name)]
+                                                   for it in s.items):
+                    return True
+                return _defined_before(fn, name, pblk, j)
+    return False
+
+
+def _reads_written_state(e, later, uses, owner):
+    """Does the expression read an attribute / element that a statement between the definition and the last use may write?"""
+    reads = set()
+    for n in ast.walk(e):
+        if isinstance(n, (ast.Attribute, ast.Subscript)):
+            reads.add(ast.unparse(n.value))
+            reads.add(ast.unparse(n))
+    if not reads:
+        return False
+    last = max((getattr(u, 'lineno', 0) for u in uses), default=0)
+    span = list(later)
+    if isinstance(owner, (ast.For, ast.While)):
+        span = span + list(owner.body)          # a write later in the loop body reaches the next iteration's use
+        last = 10 ** 9
+    for s in span:
+        for n in ast.walk(s):
+            if getattr(n, 'lineno', 0) > last:
+                continue
+            tg = []
+            if isinstance(n, ast.Assign):
+                tg = n.targets
+            elif isinstance(n, (ast.AugAssign, ast.AnnAssign)):
+                tg = [n.target]
+            elif isinstance(n, ast.Delete):
+                tg = n.targets
+            for t in tg:
+                for x in ast.walk(t):
+                    if isinstance(x, (ast.Attribute, ast.Subscript)) and (ast.unparse(x) in reads or ast.unparse(x.value) in reads):
+                        return True
+            if isinstance(n, ast.Call) and isinstance(n.func, ast.Attribute) and n.func.attr in MUTATORS and ast.unparse(n.func.value) in reads:
+                return True
+            if isinstance(n, ast.Call) and isinstance(n.func, ast.Name) and n.func.id in ('setattr', 'delattr') and n.args \
+                    and ast.unparse(n.args[0]) in reads:
+                return True
+    return False
+
+
+def propagate_all(tree):
+    fns = [n for n in ast.walk(tree) if isinstance(n, (ast.FunctionDef, ast.AsyncFunctionDef))]
+    for fn in fns:
+        split_versions(fn)
+        propagate_copies(fn)
+        forward_substitute(fn)
+        propagate_copies(fn)
+    return tree
+
+
+# ------------------------------------------------------------------------------------------------ N14 block-level SSA
+def _flows_to_merge(fn, blk):
+    """Can control fall off the end of this block into code that is also reached without passing through the block?
+    Not for the function body; not for a block that always leaves (return / raise / continue / break)."""
+    return not (blk is fn.body or terminates(blk))
+
+
+def split_versions(fn):
+    """N14: a re-binding `x = e(x)` / `x += e` of a name that already has a value (a parameter, an earlier binding), made in
+    the function body or in a block that always leaves, starts a new version of the name for everything that follows it:
+    `value = check(value); use(value)` and `checked = check(value); use(checked)` become the same text."""
+    params = set(a.arg for a in fn.args.posonlyargs + fn.args.args + fn.args.kwonlyargs)
+    version = [0]
+    for _ in range(50):
+        cnt, nested_reads, declared = _bindings(fn)
+        done = False
+        for blk, owner in _blocks(fn):
+            if _flows_to_merge(fn, blk) or _inside_loop(fn, blk):
+                continue
+            bound = set(params)
+            for i, st in enumerate(blk):
+                tgt = None
+                if isinstance(st, ast.Assign) and len(st.targets) == 1 and isinstance(st.targets[0], ast.Name):
+                    tgt = st.targets[0].id
+                elif isinstance(st, ast.AugAssign) and isinstance(st.target, ast.Name):
+                    tgt = st.target.id
+                if tgt is not None and tgt not in nested_reads and tgt not in declared and \
+                        (tgt in bound or _bound_before(fn, tgt, blk, i)) and cnt.get(tgt, 0) >= 1 and not tgt.startswith('__v'):
+                    later = blk[i + 1:]
+                    # every other binding of the name must not lie after this point (one forward chain only)
+                    if any(isinstance(n, ast.Name) and n.id == tgt and isinstance(n.ctx, (ast.Store, ast.Del)) for s_ in later for n in ast.walk(s_)) or \
+                            any(isinstance(n, ast.AugAssign) and isinstance(n.target, ast.Name) and n.target.id == tgt for s_ in later for n in ast.walk(s_)):
+                        bound.add(tgt)
+                        continue
+                    version[0] += 1
+                    new = '__v%d_%s' % (version[0], tgt)
+                    if isinstance(st, ast.AugAssign):
+                        blk[i] = ast.copy_location(ast.Assign(targets=[ast.copy_location(ast.Name(id=new, ctx=ast.Store()), st.target)],
+                                                              value=ast.copy_location(ast.BinOp(left=ast.copy_location(ast.Name(id=tgt, ctx=ast.Load()), st.target),
+                                                                                                op=st.op, right=st.value), st), type_comment=None), st)
+                    else:
+                        st.targets[0].id = new
+                    for s_ in later:
+                        for n in ast.walk(s_):
+                            if isinstance(n, ast.Name) and n.id == tgt:
+                                n.id = new
+                    done = True
+                    break
+                if tgt is not None:
+                    bound.add(tgt)
+            if done:
+                break
+        if not done:
+            break
+    ast.fix_missing_locations(fn)
+
+
+def _inside_loop(fn, blk):
+    found = [False]
+
+    def rec(node, in_loop):
+        for field in ('body', 'orelse', 'finalbody'):
+            b = getattr(node, field, None)
+            if isinstance(b, list) and b and isinstance(b[0], ast.stmt):
+                il = in_loop or (isinstance(node, (ast.For, ast.While)) and field == 'body')
+                if b is blk:
+                    found[0] = il
+                    return True
+                for s in b:
+                    if not isinstance(s, SCOPES) and rec(s, il):
+                        return True
+        for h in getattr(node, 'handlers', []) or []:
+            if rec(h, in_loop):
+                return True
+        return False
+    rec(fn, False)
+    return found[0]
+
+
+def _bound_before(fn, name, blk, idx):
+    for s in blk[:idx]:
+        for n in ast.walk(s):
+            if isinstance(n, ast.Name) and n.id == name and isinstance(n.ctx, ast.Store):
+                return True
+    for pblk, owner in _blocks(fn):
+        for j, s in enumerate(pblk):
+            if any(getattr(s, f, None) is blk for f in ('body', 'orelse', 'finalbody')):
+                return _bound_before(fn, name, pblk, j)
+    return False
+
+
+# ------------------------------------------------------------------------------------------------ N15 ordered forward substitution
+def forward_substitute(fn):
+    """N15: `a = f(); b = g(); return a + b` is `return f() + g()`: a run of single-use locals whose definitions directly
+    precede the statement that uses them, in the order in which that statement evaluates them and before anything else it
+    evaluates that could have an effect, is substituted even though the definitions are not pure."""
+    for _ in range(100):
+        cnt, nested_reads, declared = _bindings(fn)
+        done = False
+        for blk, owner in _blocks(fn):
+            for i in range(len(blk) - 1):
+                run = []
+                j = i
+                while j < len(blk) - 1:
+                    st = blk[j]
+                    if isinstance(st, ast.Assign) and len(st.targets) == 1 and isinstance(st.targets[0], ast.Name) \
+                            and cnt.get(st.targets[0].id) == 1 and st.targets[0].id not in nested_reads and st.targets[0].id not in declared \
+                            and not isinstance(st.value, (ast.List, ast.Dict, ast.Set, ast.ListComp, ast.SetComp, ast.DictComp, ast.Yield, ast.YieldFrom, ast.Await)):
+                        run.append(st)
+                        j += 1
+                    else:
+                        break
+                if not run:
+                    continue
+                user = blk[j]
+                if isinstance(user, (ast.If, ast.While)):
+                    scope_nodes = [user.test]
+                elif isinstance(user, ast.For):
+                    scope_nodes = [user.iter]
+                elif isinstance(user, (ast.Assign, ast.AugAssign, ast.Return, ast.Expr, ast.Raise)):
+                    scope_nodes = [user]
+                else:
+                    continue
+                # take the longest suffix of the run that qualifies
+                for k in range(len(run)):
+                    cand = run[k:]
+                    names = [c.targets[0].id for c in cand]
+                    order = []
+                    for root in scope_nodes:
+                        for n in _eval_order(root):
+                            if isinstance(n, ast.Name) and isinstance(n.ctx, ast.Load) and n.id in names:
+                                order.append(n.id)
+                    all_uses = [n.id for n in _own_nodes(fn) if isinstance(n, ast.Name) and isinstance(n.ctx, ast.Load) and n.id in names]
+                    if order != names or sorted(all_uses) != sorted(names):
+                        continue
+                    # nothing with an effect may be evaluated by the user before the last substituted name
+                    ok = True
+                    seen = 0
+                    for root in scope_nodes:
+                        for n in _eval_order(root):
+                            if seen == len(names):
+                                break
+                            if isinstance(n, ast.Name) and isinstance(n.ctx, ast.Load) and n.id in names:
+                                seen += 1
+                            elif isinstance(n, (ast.Call, ast.Await, ast.Yield, ast.YieldFrom)) and not is_pure(n) and \
+                                    not any(isinstance(x, ast.Name) and x.id in names for x in ast.walk(n)):
+                                ok = False
+                    # a pure definition is left to N10 (it may have several uses); here at least one is impure
+                    if not ok or all(is_pure(c.value) for c in cand):
+                        continue
+                    if isinstance(user, ast.AugAssign) and any(isinstance(x, ast.Name) and x.id in names for x in ast.walk(user.value)):
+                        # the target of an augmented assignment is read before the value is evaluated
+                        if not isinstance(user.target, ast.Name):
+                            continue
+                    for c in cand:
+                        for root in scope_nodes:
+                            _Subst(c.targets[0].id, c.value).visit(root)
+                    del blk[i + k:j]
+                    done = True
+                    break
+                if done:
+                    break
+            if done:
+                break
+        if not done:
+            break
+
+
+def _eval_order(node):
+    """Sub-expressions in (approximate) evaluation order: children left to right, a node after its operands."""
+    if isinstance(node, ast.Call):
+        seq = [node.func] + list(node.args) + [k.value for k in node.keywords]
+    elif isinstance(node, ast.IfExp):
+        seq = [node.test, node.body, node.orelse]
+    elif isinstance(node, ast.Assign):
+        seq = [node.value] + list(node.targets)
+    elif isinstance(node, ast.AugAssign):
+        seq = [node.target, node.value]
+    elif isinstance(node, SCOPES):
+        seq = []
+    else:
+        seq = list(ast.iter_child_nodes(node))
+    for c in seq:
+        for x in _eval_order(c):
+            yield x
+    yield node
